@@ -1,0 +1,280 @@
+//! Verification hooks (cargo feature `verif`, off by default).
+//!
+//! Nothing in this module is compiled unless the crate is built with `--features verif`.
+//! It gives an external harness control over the three sources of nondeterminism of the
+//! library (OS entropy, number-theoretic random draws, thread interleaving at the `RwLock`
+//! phases of the lazily grown caches) and re-exports a few crate-private modules so that
+//! they can be driven directly.
+#![allow(missing_docs)]
+
+use std::cell::{Cell, RefCell};
+use std::collections::VecDeque;
+use std::sync::atomic::{AtomicBool, AtomicUsize, Ordering};
+use std::sync::{Arc, LockResult, Mutex};
+
+/// Re-export of the crate-private polynomial arithmetic.
+pub mod polysmallmod {
+    pub use crate::util::polysmallmod::*;
+}
+/// Re-export of the crate-private BFV scaling helpers.
+pub mod scaling_variant {
+    pub use crate::util::scaling_variant::*;
+}
+
+// ---------------------------------------------------------------------------------------------
+// H1: entropy script
+// ---------------------------------------------------------------------------------------------
+
+thread_local! {
+    static ENTROPY: RefCell<Option<([u8; 32], u64)>> = const { RefCell::new(None) };
+    static ENTROPY_CALLS: Cell<u64> = const { Cell::new(0) };
+    static NOISE: Cell<(NoiseMode, NoiseMode)> = const { Cell::new((NoiseMode::Real, NoiseMode::Real)) };
+    static NT_DRAWS: RefCell<Option<VecDeque<u64>>> = const { RefCell::new(None) };
+    static NT_DRAW_LOG: RefCell<Vec<u64>> = const { RefCell::new(Vec::new()) };
+}
+
+/// Install (or remove) the entropy script of the calling thread. While installed, the k-th
+/// generator requested from any `BlakeRNGFactory` in random-seed mode on this thread is seeded
+/// with `blake3(base || k)` instead of OS entropy.
+pub fn set_entropy(base: Option<[u8; 32]>) {
+    ENTROPY.with(|e| *e.borrow_mut() = base.map(|b| (b, 0)));
+    ENTROPY_CALLS.with(|c| c.set(0));
+}
+
+/// Number of generators handed out on this thread since the last `set_entropy`.
+pub fn entropy_calls() -> u64 {
+    ENTROPY_CALLS.with(|c| c.get())
+}
+
+pub(crate) fn next_entropy_seed() -> Option<[u8; 64]> {
+    ENTROPY_CALLS.with(|c| c.set(c.get() + 1));
+    ENTROPY.with(|e| {
+        let mut e = e.borrow_mut();
+        match e.as_mut() {
+            None => None,
+            Some((base, counter)) => {
+                let mut hasher = blake3::Hasher::new();
+                hasher.update(b"heathcliff-verif-entropy");
+                hasher.update(base);
+                hasher.update(&counter.to_le_bytes());
+                *counter += 1;
+                let mut out = [0u8; 64];
+                hasher.finalize_xof().fill(&mut out);
+                Some(out)
+            }
+        }
+    })
+}
+
+// ---------------------------------------------------------------------------------------------
+// H2: noise script
+// ---------------------------------------------------------------------------------------------
+
+/// How the small polynomials are produced.
+#[derive(Clone, Copy, PartialEq, Eq, Debug)]
+pub enum NoiseMode {
+    /// sample from the generator as usual
+    Real,
+    /// all coefficients 0
+    Zero,
+    /// all coefficients at the positive maximum (+1 ternary, +21 error)
+    AllMax,
+    /// all coefficients at the negative maximum
+    AllMin,
+    /// alternating +max, -max, ...
+    Alt,
+}
+
+/// Set the script for (ternary samples, error samples) on the calling thread.
+pub fn set_noise(ternary: NoiseMode, error: NoiseMode) {
+    NOISE.with(|n| n.set((ternary, error)));
+}
+
+fn scripted_fill(mode: NoiseMode, max: u64, parms: &crate::EncryptionParameters, destination: &mut [u64]) -> bool {
+    if mode == NoiseMode::Real {
+        return false;
+    }
+    let coeff_modulus = parms.coeff_modulus();
+    let coeff_count = parms.poly_modulus_degree();
+    for i in 0..coeff_count {
+        let positive = match mode {
+            NoiseMode::Zero => None,
+            NoiseMode::AllMax => Some(true),
+            NoiseMode::AllMin => Some(false),
+            NoiseMode::Alt => Some(i % 2 == 0),
+            NoiseMode::Real => unreachable!(),
+        };
+        for (j, q) in coeff_modulus.iter().enumerate() {
+            destination[i + j * coeff_count] = match positive {
+                None => 0,
+                Some(true) => max % q.value(),
+                Some(false) => (q.value() - max % q.value()) % q.value(),
+            };
+        }
+    }
+    true
+}
+
+pub(crate) fn scripted_ternary(parms: &crate::EncryptionParameters, destination: &mut [u64]) -> bool {
+    let mode = NOISE.with(|n| n.get()).0;
+    scripted_fill(mode, 1, parms, destination)
+}
+
+pub(crate) fn scripted_error(parms: &crate::EncryptionParameters, destination: &mut [u64]) -> bool {
+    let mode = NOISE.with(|n| n.get()).1;
+    scripted_fill(mode, 21, parms, destination)
+}
+
+// ---------------------------------------------------------------------------------------------
+// H3: number-theory draws
+// ---------------------------------------------------------------------------------------------
+
+/// Install a script of raw draws for `try_primitive_root` / `is_prime` on this thread. When the
+/// script is installed but exhausted, the real random draw is used. `None` removes the script.
+pub fn set_nt_draws(draws: Option<Vec<u64>>) {
+    NT_DRAWS.with(|d| *d.borrow_mut() = draws.map(VecDeque::from));
+    NT_DRAW_LOG.with(|l| l.borrow_mut().clear());
+}
+
+/// The draws actually used (scripted or real) since the last `set_nt_draws`, only recorded while
+/// a script is installed.
+pub fn nt_draw_log() -> Vec<u64> {
+    NT_DRAW_LOG.with(|l| l.borrow().clone())
+}
+
+pub(crate) fn nt_draw(real: u64) -> u64 {
+    NT_DRAWS.with(|d| {
+        let mut d = d.borrow_mut();
+        match d.as_mut() {
+            None => real,
+            Some(q) => {
+                let v = q.pop_front().unwrap_or(real);
+                NT_DRAW_LOG.with(|l| l.borrow_mut().push(v));
+                v
+            }
+        }
+    })
+}
+
+// ---------------------------------------------------------------------------------------------
+// H4: RwLock wrapper reporting every lock operation to an installed scheduler
+// ---------------------------------------------------------------------------------------------
+
+/// A lock operation about to happen / having happened.
+#[derive(Clone, Copy, PartialEq, Eq, Debug)]
+pub enum LockOp {
+    /// about to acquire shared
+    Read,
+    /// about to acquire exclusive
+    Write,
+    /// a shared guard was released
+    ReadRelease,
+    /// an exclusive guard was released
+    WriteRelease,
+}
+
+/// Callbacks of an installed scheduler. `before` is called with no lock of the wrapper held by
+/// the calling operation and may block until the scheduler lets the thread perform `op` on lock
+/// `lock_id` (the scheduler is expected to return only when the acquisition cannot block).
+/// `after_release` is called after a guard has been dropped.
+pub trait Scheduler: Send + Sync {
+    fn before(&self, lock_id: usize, op: LockOp);
+    fn after_release(&self, lock_id: usize, op: LockOp);
+}
+
+static SCHED_ON: AtomicBool = AtomicBool::new(false);
+static SCHED: Mutex<Option<Arc<dyn Scheduler>>> = Mutex::new(None);
+static NEXT_LOCK_ID: AtomicUsize = AtomicUsize::new(1);
+
+thread_local! {
+    static SCHED_MEMBER: Cell<bool> = const { Cell::new(false) };
+}
+
+/// Install or remove the process-wide scheduler.
+pub fn set_scheduler(s: Option<Arc<dyn Scheduler>>) {
+    let on = s.is_some();
+    *SCHED.lock().unwrap() = s;
+    SCHED_ON.store(on, Ordering::SeqCst);
+}
+
+/// Mark the calling thread as controlled by the scheduler (threads that are not members pass
+/// through the wrapper without reporting).
+pub fn set_scheduled_thread(member: bool) {
+    SCHED_MEMBER.with(|m| m.set(member));
+}
+
+fn current_scheduler() -> Option<Arc<dyn Scheduler>> {
+    if !SCHED_ON.load(Ordering::SeqCst) || !SCHED_MEMBER.with(|m| m.get()) {
+        return None;
+    }
+    SCHED.lock().unwrap().clone()
+}
+
+/// Drop-in replacement of `std::sync::RwLock` for the three caches.
+pub struct RwLock<T> {
+    inner: std::sync::RwLock<T>,
+    id: usize,
+}
+
+pub struct RwLockReadGuard<'a, T> {
+    guard: Option<std::sync::RwLockReadGuard<'a, T>>,
+    id: usize,
+}
+
+pub struct RwLockWriteGuard<'a, T> {
+    guard: Option<std::sync::RwLockWriteGuard<'a, T>>,
+    id: usize,
+}
+
+impl<T> RwLock<T> {
+    pub fn new(t: T) -> Self {
+        Self { inner: std::sync::RwLock::new(t), id: NEXT_LOCK_ID.fetch_add(1, Ordering::SeqCst) }
+    }
+
+    /// Identifier reported to the scheduler.
+    pub fn verif_id(&self) -> usize { self.id }
+
+    pub fn read(&self) -> LockResult<RwLockReadGuard<'_, T>> {
+        if let Some(s) = current_scheduler() { s.before(self.id, LockOp::Read); }
+        match self.inner.read() {
+            Ok(g) => Ok(RwLockReadGuard { guard: Some(g), id: self.id }),
+            Err(e) => Err(std::sync::PoisonError::new(RwLockReadGuard { guard: Some(e.into_inner()), id: self.id })),
+        }
+    }
+
+    pub fn write(&self) -> LockResult<RwLockWriteGuard<'_, T>> {
+        if let Some(s) = current_scheduler() { s.before(self.id, LockOp::Write); }
+        match self.inner.write() {
+            Ok(g) => Ok(RwLockWriteGuard { guard: Some(g), id: self.id }),
+            Err(e) => Err(std::sync::PoisonError::new(RwLockWriteGuard { guard: Some(e.into_inner()), id: self.id })),
+        }
+    }
+}
+
+impl<T> std::ops::Deref for RwLockReadGuard<'_, T> {
+    type Target = T;
+    fn deref(&self) -> &T { self.guard.as_ref().unwrap() }
+}
+
+impl<T> std::ops::Deref for RwLockWriteGuard<'_, T> {
+    type Target = T;
+    fn deref(&self) -> &T { self.guard.as_ref().unwrap() }
+}
+
+impl<T> std::ops::DerefMut for RwLockWriteGuard<'_, T> {
+    fn deref_mut(&mut self) -> &mut T { self.guard.as_mut().unwrap() }
+}
+
+impl<T> Drop for RwLockReadGuard<'_, T> {
+    fn drop(&mut self) {
+        self.guard.take();
+        if let Some(s) = current_scheduler() { s.after_release(self.id, LockOp::ReadRelease); }
+    }
+}
+
+impl<T> Drop for RwLockWriteGuard<'_, T> {
+    fn drop(&mut self) {
+        self.guard.take();
+        if let Some(s) = current_scheduler() { s.after_release(self.id, LockOp::WriteRelease); }
+    }
+}
